@@ -129,6 +129,7 @@ type Conn struct {
 	peerClosed bool   // peer sent FIN
 	reset      bool   // peer reset the connection
 	Capacity   int    // >0: the peer's Write parks when this end holds that many unread bytes
+	CloseErr   error  // non-nil: Close on this end closes the connection but reports this error (a TLS close notification that could not be sent)
 	ReadCalls  int
 	WriteCalls int
 	CloseCalls int
@@ -320,6 +321,9 @@ func (c *Conn) Close() error {
 	c.peer.peerClosed = true
 	e.releaseMerge(&c.peer.closeVC)
 	e.log("close " + c.name)
+	if c.CloseErr != nil {
+		return c.opErr("close", c.CloseErr)
+	}
 	return nil
 }
 
